@@ -38,9 +38,15 @@ pub struct ChunkedRead<'a> {
     /// position at each fill_buf call (only recorded when `record` is set)
     pub record: bool,
     pub call_positions: Vec<usize>,
+    /// while set, the source reports end of input at this offset (a file that is still being written,
+    /// a terminal); `release()` makes the rest available
+    pub hold_at: Option<usize>,
 }
 
 impl<'a> ChunkedRead<'a> {
+    pub fn release(&mut self) {
+        self.hold_at = None;
+    }
     pub fn new(data: &'a [u8], cuts: Vec<usize>) -> Self {
         ChunkedRead {
             data,
@@ -51,6 +57,7 @@ impl<'a> ChunkedRead<'a> {
             faults_delivered: 0,
             record: false,
             call_positions: Vec::new(),
+            hold_at: None,
         }
     }
     pub fn with_piece(data: &'a [u8], piece: usize) -> Self {
@@ -60,9 +67,13 @@ impl<'a> ChunkedRead<'a> {
     fn piece_end(&self) -> usize {
         // first cut greater than pos (cuts are sorted)
         let i = self.cuts.partition_point(|&c| c <= self.pos);
+        let end = match self.hold_at {
+            Some(h) if h >= self.pos => h.min(self.data.len()),
+            _ => self.data.len(),
+        };
         match self.cuts.get(i) {
-            Some(&c) => c.min(self.data.len()),
-            None => self.data.len(),
+            Some(&c) => c.min(end),
+            None => end,
         }
     }
     #[inline]
@@ -93,6 +104,18 @@ pub fn cuts_for_piece(len: usize, piece: usize, first_min: usize) -> Vec<usize> 
 }
 
 /// cut set from a bit mask: bit i set = cut after byte i (offset i+1)
+/// cut set with long pieces: piece lengths drawn from 8..=160, so that whole pieces lie inside one
+/// attribute value, text, comment, ... of moderate length
+pub fn big_random_cuts(r: &mut crate::rng::Rng, len: usize, first_min: usize) -> Vec<usize> {
+    let mut cuts = Vec::new();
+    let mut p = first_min.max(8 + r.below(153));
+    while p < len {
+        cuts.push(p);
+        p += 8 + r.below(153);
+    }
+    cuts
+}
+
 pub fn cuts_from_mask(len: usize, mask: u64) -> Vec<usize> {
     let mut cuts = Vec::new();
     for i in 0..len.saturating_sub(1).min(63) {
